@@ -29,12 +29,13 @@
 -/
 namespace CuqiVerif.C11
 
-inductive Cls | dist | lognormal | reggauss | lik | eval | joint | post | mlp | model | geom | cache
+inductive Cls | dist | lognormal | reggauss | lik | eval | joint | post | mlp | model | geom | cache | arr
   deriving DecidableEq, Repr, Inhabited
 
 def Cls.letter : Cls → String
   | .dist => "d" | .lognormal => "n" | .reggauss => "r" | .lik => "L" | .eval => "E" | .joint => "J"
   | .post => "P" | .mlp => "M" | .model => "A" | .geom => "g" | .cache => "d"   -- the shared Gaussian *is* a Gaussian
+  | .arr => "a"                                                                 -- a numpy array (value of a `_constant`)
 
 /-- Is the class a `cuqi.distribution.Distribution` (what `JointDistribution._distributions` keeps)? -/
 def Cls.isDist : Cls → Bool
@@ -44,6 +45,10 @@ def Cls.isDist : Cls → Bool
 inductive Fld
   | fam | name | const | orig | geom | slot (i : Nat) | distr | data | value | dens | lik | prior | gauss | args
   | mvars | vname | cacheG | cmean | ccov | syncName
+  /-- content of a numpy array object (class `arr`): the one piece of data the code mutates in place -/
+  | cval
+  /-- flag on a distribution / evaluated density: its log-density value is an `ndarray` (not a scalar) -/
+  | arrv
   deriving DecidableEq, Repr
 
 /-- Benign caches: never part of the observable behaviour (see header). -/
@@ -51,12 +56,18 @@ def Fld.benign : Fld → Bool
   | .mvars | .vname | .cacheG | .cmean | .ccov | .syncName => true
   | _ => false
 
+/-- Fields exempt from the frame theorems: the benign caches and the *content* of array-typed
+    constants (`ndarray += x` is in place; see `reduce`, `reduce_inplace_counterexample`). -/
+def Fld.exempt : Fld → Bool
+  | .cval => true
+  | f => f.benign
+
 def Fld.toString : Fld → String
   | .fam => "fam" | .name => "_name" | .const => "_constant" | .orig => "_original_density" | .geom => "_geometry"
   | .slot i => s!"slot{i}" | .distr => "distribution" | .data => "data" | .value => "value" | .dens => "_densities"
   | .lik => "likelihood" | .prior => "prior" | .gauss => "_gaussian" | .args => "_non_default_args"
   | .mvars => "_mutable_vars" | .vname => "_variable_name" | .cacheG => "_Gaussian" | .cmean => "_Gaussian.mean"
-  | .ccov => "_Gaussian.cov" | .syncName => "_gaussian._name"
+  | .ccov => "_Gaussian.cov" | .syncName => "_gaussian._name" | .cval => "_constant[...]" | .arrv => "arrv"
 
 inductive Val
   | none
@@ -161,13 +172,23 @@ def St.parNamesDens (s : St) (a : Nat) : List Nat :=
   | .eval => []
   | _ => s.condVars a ++ (match valNat (s.nameOf a) with | some k => [k] | none => [])
 
+/-- value of `_constant`: a scalar, or the content of the array object it refers to -/
+def St.constOf (s : St) (a : Nat) : Int :=
+  match s.get a .const with
+  | .num c => c
+  | .ref cell => (match s.get cell .cval with | .num v => v | _ => 0)
+  | _ => 0
+
+/-- is the value of `logd` of (fully specified) `a` an ndarray?  (family returns arrays, or `_constant` is one) -/
+def St.arrTyped (s : St) (a : Nat) : Bool :=
+  (s.get a .arrv == .num 1) || (match s.get a .const with | .ref _ => true | _ => false)
+
 /-- signature of the log-density of a fully specified distribution at `x` (+ `_constant`) -/
 def St.logdSig (s : St) (a : Nat) (x : Int) : Int :=
   let h := s.slotHolder a
   let base := (slotsOf (s.obj h)).foldl (fun acc v => match v with | .num c => acc * 31 + c | _ => acc * 31 + 7) x
   let fam := match s.get a .fam with | .num f => f | _ => 0
-  let c := match s.get a .const with | .num c => c | _ => 0
-  base * 101 + fam + c
+  base * 101 + fam + s.constOf a
 
 /-! ### Lognormal: the shared `_Gaussian` is re-synchronised on every access of `_normal` -/
 
@@ -219,7 +240,8 @@ def condSlots (o : Obj) (kw : Kw) (s : St) (b : Nat) : St :=
 /-- `Distribution.to_likelihood(data)` on object `b` -/
 def St.toLikelihood (s : St) (b : Nat) (data : Int) : St × Res :=
   if (s.condVars b).isEmpty then
-    let (s1, e) := s.alloc (Obj.ofList .eval [(.name, s.nameOf b), (.const, .num 0), (.value, .num (s.logdSig b data))])
+    let (s1, e) := s.alloc (Obj.ofList .eval [(.name, s.nameOf b), (.const, .num 0), (.value, .num (s.logdSig b data)),
+                                             (.arrv, .num (if s.arrTyped b then 1 else 0))])
     (s1, .obj e)
   else
     let (s1, l) := s.alloc (Obj.ofList .lik [(.distr, .ref b), (.data, .num data)])
@@ -312,7 +334,27 @@ def St.sumEvals (s : St) (ds : List Nat) : Int :=
       acc + (match s.get d .value with | .num v => v | _ => 0) + (match s.get d .const with | .num c => c | _ => 0)
     else acc) 0
 
-def St.constOf (s : St) (a : Nat) : Int := match s.get a .const with | .num c => c | _ => 0
+/-- `sum([density.logd() for density in evaluated])` is an ndarray iff one of the terms is -/
+def St.sumEvalsArr (s : St) (ds : List Nat) : Bool := ds.any (fun d => s.cls d = .eval && s.get d .arrv == .num 1)
+
+def St.hasEvals (s : St) (ds : List Nat) : Bool := ds.any (fun d => s.cls d = .eval)
+
+/-- `density._constant += x` (Python semantics of `+=`).
+    * `_constant` is a Python / NumPy *scalar*: a new object is bound on `d` — a new ndarray when
+      `x` is one, a scalar otherwise;
+    * `_constant` is an *ndarray*: `ndarray.__iadd__` adds IN PLACE into the array object — which a
+      shallow copy shares with the density it was copied from — and re-binds the same object.
+      (`x = sum([]) = 0` when there is no evaluated density: the bytes do not change; no write.) -/
+def St.addConst (s : St) (d : Nat) (ds : List Nat) : St :=
+  match s.get d .const with
+  | .ref cell =>
+    let s1 := if s.hasEvals ds then s.write cell .cval (.num (s.constOf d + s.sumEvals ds)) else s
+    s1.write d .const (.ref cell)
+  | _ =>
+    if s.sumEvalsArr ds then
+      let (s1, cell) := s.alloc (Obj.ofList .arr [(.cval, .num (s.constOf d + s.sumEvals ds))])
+      s1.write d .const (.ref cell)
+    else s.write d .const (.num (s.constOf d + s.sumEvals ds))
 
 /-- `_reduce_to_single_density` (with `_add_constants_to_density`) of the new joint `j` whose
     densities are `ds` -/
@@ -327,9 +369,9 @@ def St.reduce (s : St) (j : Nat) (ds : List Nat) : St × Res :=
   | [d], [l] =>
     if sameSet (s.parNamesDens l) (s.parNamesDens d) then
       let (s1, p) := s.alloc (Obj.ofList .post [(.lik, .ref l), (.prior, .ref d), (.const, .num 0)])
-      (s1.write p .const (.num (s1.constOf p + s1.sumEvals ds)), .obj p)
+      (s1.addConst p ds, .obj p)
     else (s, .obj j)
-  | [d], [] => (s.write d .const (.num (s.constOf d + s.sumEvals ds)), .obj d)
+  | [d], [] => (s.addConst d ds, .obj d)
   | [], [l] => (s, .obj l)
   | [], _ => (s, .obj j)
 
@@ -485,6 +527,18 @@ def St.applyModel (s : St) (m : Nat) (d : Nat) : St × Res :=
     (s1.write b .args (.ids [nm]), .obj b)
   | _, _, _ => (s, .err)
 
+/-- `JointDistribution(*densities)`: unique names, every parameter has a distribution -/
+def St.mkJoint (s : St) (ds : List Nat) : St × Res :=
+  let okCls := ds.all (fun d => match s.cls d with | .dist | .lognormal | .reggauss | .lik | .eval => true | _ => false)
+  let names := ds.filterMap (fun d => valNat (s.nameAny d))
+  let distNames := s.jointParNames ds
+  let unique := names.length = ds.length ∧ names.eraseDups.length = names.length
+  let closed := ds.all (fun d => (s.parNamesDens d).all (fun k => distNames.contains k))
+  if okCls ∧ unique ∧ closed then
+    let (s1, j) := s.alloc (Obj.ofList .joint [(.dens, .refs ds)])
+    (s1, .obj j)
+  else (s, .err)
+
 /-! ### programs -/
 
 inductive Op
@@ -494,6 +548,7 @@ inductive Op
   | sample (a : Nat)
   | tolik (a : Nat) (data : Int)
   | apply (m : Nat) (d : Nat)
+  | mkjoint (ds : List Nat)
   deriving Repr
 
 def St.run (s : St) : Op → St × Res
@@ -503,6 +558,7 @@ def St.run (s : St) : Op → St × Res
   | .sample a => s.sampleAny a
   | .tolik a data => s.toLikAny a data
   | .apply m d => s.applyModel m d
+  | .mkjoint ds => s.mkJoint ds
 
 def St.runAll (s : St) : List Op → St
   | [] => s
@@ -535,7 +591,7 @@ def Tree.leafVal : Tree → Option Val
 
 def fpFields : List Fld :=
   [.fam, .name, .const, .orig, .geom, .slot 0, .slot 1, .slot 2, .slot 3, .distr, .data, .value, .dens, .lik, .prior,
-   .gauss, .args]
+   .gauss, .args, .arrv]
 
 /-- Fingerprint of object `a` as of watermark `n` (objects allocated at or after `n` are opaque —
     none is reachable through non-benign fields from an object older than `n` unless an old
@@ -560,6 +616,12 @@ partial def Tree.toString : Tree → String
 /-- escaping non-benign writes of the log segment added since `log0`, relative to watermark `n` -/
 def escapes (n : Nat) (s : St) (len0 : Nat) : List (Nat × Fld) :=
   ((s.log.take (s.log.length - len0)).filter (fun w => w.1 < n && !w.2.benign)).reverse
+
+/-- the full fingerprint additionally reads the content of array-typed constants -/
+def constContent (s : St) (a : Nat) : Val :=
+  match s.get a .const with
+  | .ref cell => s.get cell .cval
+  | v => v
 
 def benignEscapes (n : Nat) (s : St) (len0 : Nat) : List (Nat × Fld) :=
   ((s.log.take (s.log.length - len0)).filter (fun w => w.1 < n && w.2.benign)).reverse
